@@ -79,6 +79,7 @@ func (cache *MemCache) WriteToWriter(quit chan struct{}, w SeekerWriter, srcStar
 	var count int64
 	var bufSize int64
 
+	verifBeforeWrite()
 	for count < len {
 		if quit != nil {
 			select {
